@@ -223,6 +223,28 @@ def spaced (z : Zone) : Bool :=
 table it receives; the tables of the installed database that fail it are listed in NOTES.md) -/
 def zoneOK (z : Zone) : Bool := sorted z && offsetsBounded z && spaced z
 
+/-- weaker than `spacedFrom` (implied by it): the local spans are in order.  For the span
+`[t, t')` with offset `o` (`p` = offset before it, `o'` = offset after it):
+* its local end is not before the local end of the previous span (`t + p ≤ t' + o`),
+* the local start of the next span is not before its own local start (`t + o ≤ t' + o'`),
+* if it starts with a forward jump (`p < o`) it lasts at least one minute.
+A gap may be directly followed by a fold (Europe/Lisbon 1992-09-27: `+1 → +2` at 00:00Z,
+`+2 → +1` at 01:00Z: the whole hour after the gap is ambiguous), a fold by a fold or by a gap. -/
+def orderedFrom (p t o : Int) : List (Int × Int) → Bool
+  | [] => true
+  | (t', o') :: rest =>
+    decide (t + offNs p ≤ t' + offNs o ∧ t + offNs o ≤ t' + offNs o' ∧ (p < o → t' - t ≥ nsPerMin))
+      && orderedFrom o t' o' rest
+
+def spansOrdered (z : Zone) : Bool :=
+  match z.trans with
+  | [] => true
+  | (t, o) :: rest => orderedFrom z.init t o rest
+
+/-- the weaker well-formedness hypothesis (`OH.Props.C09.ZoneOrdered`): enough for every clause about
+`datetime` except "at most two readings" and "the first valid time after a gap is read once" -/
+def zoneOrdered (z : Zone) : Bool := sorted z && spansOrdered z
+
 /-! ### gaps (finding classes) -/
 
 /-- the transition `(T, gap start, gap end)` (local times) whose forward jump skips `n`:
@@ -258,10 +280,12 @@ def backwardsInGap (z : Zone) (a b : Int) : Bool :=
   | some (_, _, g) => decide (a ≤ b ∧ g ≤ b ∧ b < g + (a - g) % nsPerSec)
   | none => false
 
-/-- class predicate `zone-not-ok` on (table, naive instant): `n` is skipped by a forward jump at `T`
-but the landing second `b + r` is not read last at `T + r` (a fold follows the gap directly, e.g.
-Europe/Lisbon 1992-09-27): `latest()` answers the post-fold reading.
-Impossible for `zoneOK` tables (`OH.Props.C09.gapLandsInFold_false`). -/
+/-- FORMER class predicate `zone-not-ok` on (table, naive instant), no longer a finding class (the
+driver does not use it): `n` is skipped by a forward jump at `T` but the landing second `b + r` is
+not read last at `T + r` (a fold follows the gap directly, e.g. Europe/Lisbon 1992-09-27).  Before
+/repo e1e5204 `datetime` answered `latest()` there — the post-fold reading, an hour late; it now
+answers `earliest()` = `T + r` (`OH.Props.C09.datetime_gap_ordered`).
+Impossible for `zoneOK` tables (`OH.Props.C09.gapLandsInFold_false`), true on `lisbon1992`. -/
 def gapLandsInFold (z : Zone) (n : Int) : Bool :=
   match gapOf z n with
   | some (T, _, b) => (fromLocal z (b + (n - b) % nsPerSec)).getLast? != some (T + (n - b) % nsPerSec)
